@@ -141,6 +141,8 @@ def single_value(ans):
     """-> ('ok', Fraction, okdict) | ('err', msg) | ('multi', n) | ('panic', msg)"""
     if "panic" in ans:
         return ("panic", ans["panic"])
+    if ans.get("timeout"):
+        return ("timeout", "no answer within 10 s")
     if "parse_error" in ans:
         return ("err", ans["parse_error"])
     rs = ans.get("results", [])
@@ -271,8 +273,10 @@ def c06(rac, units, tier, seed):
                 for style in styles:
                     q = render(tree, style)
                     cases.append((rnd.choice(["", " ", "  ", "\t"]) + q + rnd.choice(["", " ", "  ", "\t"]), exp, (ops, q)))
-    ans = rac.ask_many([{"cmd": "query", "q": q} for q, _, _ in cases], chunk=2000)
+    ans = rac.ask_many_guarded([{"cmd": "query", "q": q} for q, _, _ in cases], chunk=500, per_cmd_s=5.0)
     for (q, exp, key), a in zip(cases, ans):
+        if a.get("skipped"):
+            continue
         st = single_value(a)
         rep.ran(key, True, dict(query=q, expected=str(exp)) if len(rep.samples) < 6 and len(key[0]) >= 3 else None)
         if exp == "err":
